@@ -234,6 +234,9 @@ def replay(i, text):
 
 
 # ---------------------------------------------------------------- sub-lists, symbolically (E2)
+WORDS = ["wa", "wb", "wawb"]  # two unrelated filter words and one that contains both
+
+
 class AbsAutomaton:
     """pyahocorasick contract: iter(text) yields (end_index, value) for every added word that occurs in text."""
 
@@ -261,6 +264,28 @@ class AbsAutomaton:
         for w, v in self.words:
             if self.h.occurs(w, text):
                 out.append((0, v))
+        return out
+
+    def iter_long(self, text):
+        """longest non-overlapping matches only: an occurrence of a word is not reported when it is covered by
+        (or overlaps) a reported occurrence of another word - possible exactly when some other added word that
+        occurs contains it or can overlap it."""
+        if not self.words:
+            raise AttributeError("Not an Aho-Corasick automaton yet")
+        import z3
+
+        def related(a, b):
+            return a != b and (a in b or any(a[-k:] == b[:k] or b[-k:] == a[:k] for k in range(1, min(len(a), len(b)))))
+
+        occ = [(w, v) for w, v in self.words if self.h.occurs(w, text)]
+        out = []
+        for w, v in occ:
+            if any(related(w, w2) for w2, _ in occ):
+                b = z3.Bool(f"shadowed_{len(self.h.shadow)}")
+                self.h.shadow.append((w, b))
+                if self.h.eng.choose([b, z3.Not(b)]) == 0:
+                    continue
+            out.append((0, v))
         return out
 
 
@@ -297,6 +322,13 @@ class HSub(common.Harness):
         if key not in self.occ:
             b = z3.Bool(f"occurs_{len(self.occ)}")
             self.occ[key] = b
+            # a word that occurs brings its sub-words with it
+            for (w2, ops2), b2 in self.occ.items():
+                if ops2 == text.ops and w2 != word:
+                    if w2 in word:
+                        self.eng.add(z3.Implies(b, b2))
+                    if word in w2:
+                        self.eng.add(z3.Implies(b2, b))
         b = self.occ[key]
         return self.eng.choose([b, z3.Not(b)]) == 0
 
@@ -309,12 +341,13 @@ class HSub(common.Harness):
 
         eng, T = self.eng, self.T
         self.occ = {}
+        self.shadow = []
         n = eng.choose([z3.Int("n") == k for k in range(self.N + 1)])
         exts = []
         self.cfg = []
         for i in range(n):
             kind = eng.choose([z3.Int(f"kind{i}") == k for k in range(3)])  # no strings / case-sensitive / case-insensitive
-            word = ["wa", "wb"][eng.choose([z3.Int(f"word{i}") == k for k in range(2)])] if kind else None
+            word = WORDS[eng.choose([z3.Int(f"word{i}") == k for k in range(len(WORDS))])] if kind else None
             # a case-insensitive extractor registers its strings lower-cased; give it an upper-case string
             strings = [] if kind == 0 else [word if kind == 1 else word.upper()]
             exts.append(AbsExtractor(f"E{i}", strings, 0 if kind < 2 else int(re.I), None))
@@ -476,7 +509,7 @@ def check(rep):
     n_ok = sum(v for k, v in agg["verdicts"].items() if k.endswith(":valid"))
     rep.oblige(n_ok)
     rep.oblige(n_ob - n_ok, ok=False)
-    rep.bounds.append(f"sub-lists: every list of <= {2 if rep.tier == 'quick' else 3} abstract extractors (no strings / case-sensitive / case-insensitive, two filter words), every occurrence pattern")
+    rep.bounds.append(f"sub-lists: every list of <= {2 if rep.tier == 'quick' else 3} abstract extractors (no strings / case-sensitive / case-insensitive; filter words wa, wb and wawb, which contains both), every occurrence pattern")
     for f in agg["findings"]:
         if f["verdict"] != "cex":
             rep.inconc(f"{f['clause']}: solver verdict {f['verdict']}")
@@ -489,7 +522,7 @@ def check(rep):
         for j, (kind_, word) in enumerate(w["extractors"]):
             rx_ = "(%s)" % (word if word else "zz%d" % j)
             real.append(st["M"].TokenExtractor(rx_, st["M"].IdToken.from_match, flags=_re.I if kind_ == 2 else 0, strings=[] if kind_ == 0 else [word if kind_ == 1 else word.upper()]))
-        texts = ["wa wb", "WA", "wb", "", "zz0 zz1 wa", "Wb wa"]
+        texts = ["wa wb", "WA", "wb", "", "zz0 zz1 wa", "Wb wa", "wawb", "WAWB", "wa wawb", "wb wawb"]
         rep.replays += 1
         hit = None
         for t in texts:
